@@ -352,9 +352,9 @@ def _bind_call(fi, env):
 
 
 def configurations(spec):
-    names = list(spec["params"])
-    alts = [expand_alts(spec["params"][n] if isinstance(spec["params"][n], Sort) else Const(spec["params"][n]))
-            for n in names]
+    allp = {**spec["params"], **(spec.get("extra") or {})}
+    names = list(allp)
+    alts = [expand_alts(allp[n] if isinstance(allp[n], Sort) else Const(allp[n])) for n in names]
     for combo in itertools.product(*alts):
         yield dict(zip(names, combo))
 
@@ -374,7 +374,7 @@ def snapshot(v):
     return v
 
 
-def verify(spec, registry=None, max_paths=400, only_clauses=None):
+def verify(spec, registry=None, max_paths=400, only_clauses=None, only_cfg=None):
     """Generate and discharge all VCs of one contract. Returns dict(obligations=[...], function=..., notes...)."""
     t0 = time.time()
     prop = spec.get("prop", "?")
@@ -390,6 +390,8 @@ def verify(spec, registry=None, max_paths=400, only_clauses=None):
     vcs = []
     canary_paths = 0
     for ci, cfg in enumerate(configurations(spec)):
+        if only_cfg is not None and ci != only_cfg:
+            continue
         work = [[]]
         npaths = 0
         while work:
@@ -423,6 +425,14 @@ def verify(spec, registry=None, max_paths=400, only_clauses=None):
                 env_all = {**env, **ghost}
                 for r in deferred:
                     ctx.assume(eval_spec(I, r, env_all, mod))
+                hints = []
+                for h in spec.get("refute_hints", []):
+                    try:
+                        hz = v_truth(eval_spec(I, h, env_all, mod))
+                        hints.append(z_of(hz) if not isinstance(hz, bool) else z3.BoolVal(hz))
+                    except (Unsupported, PyRaise):
+                        pass
+                ctx.hints = hints
                 if not ctx.feasible([]):
                     continue
                 old = {k: snapshot(v) for k, v in env.items()}
@@ -481,6 +491,7 @@ def verify(spec, registry=None, max_paths=400, only_clauses=None):
                 ob["name_path"] = ob["name"] + tag
                 ob["cfg"] = describe_cfg(cfg)
                 ob["env"] = env
+                ob["hints"] = getattr(ctx, "hints", [])
                 vcs.append(ob)
             out["trusted"] |= ctx.trusted
             out["inlined"] |= I.called
@@ -488,7 +499,8 @@ def verify(spec, registry=None, max_paths=400, only_clauses=None):
             work.extend(ctx.pending)
         out["paths"] += npaths
     # vacuity guard: some path must have been executed to the end
-    if canary_paths == 0:
+    out["completed_paths"] = canary_paths
+    if canary_paths == 0 and only_cfg is None:
         out["obligations"].append(dict(name=f"{base}/vacuity", status="undecided", property_level=False,
                                        reason="no feasible path reached the end of the function (requires contradictory or everything unsupported)"))
     plevel = spec.get("property_level", True)
@@ -498,6 +510,12 @@ def verify(spec, registry=None, max_paths=400, only_clauses=None):
                                            property_level=False, cfg=vc.get("cfg")))
             continue
         r = smt.prove(vc["pc"], vc["goal"])
+        if r["status"] == "undecided" and vc.get("hints"):
+            # refutation search under extra ground constraints: any model found is a model of the original VC
+            r2 = smt.prove(list(vc["pc"]) + list(vc["hints"]), vc["goal"], timeout_ms=10000, second_opinion=False)
+            if r2["status"] == "refuted":
+                r2["backend"] = "z3+hints"
+                r = r2
         implicit = vc["meta"].get("implicit") or vc["meta"].get("lemma")
         ob = dict(name=vc["name_path"], clause=vc["name"], status=r["status"], backend=r.get("backend"),
                   time_s=r.get("time_s", 0.0), cfg=vc["cfg"], reason=r.get("reason"),
